@@ -559,7 +559,10 @@ def replay_event(res, path):
     evf = os.path.join(wd, "replay.event.json")
     json.dump(case["event"], open(evf, "w"))
     tr = os.path.join(wd, f"replay.{cfg}.ndjson")
-    if case.get("mode") in ("poly", "mat", "rel"):
+    if case.get("mode") == "acc":
+        # a history is stateful: the whole deterministic recording is repeated and validated again
+        p = run_bin(cfg, "rec", [case["mode"], tr, str(case["seed"]), str(case["draws"])])
+    elif case.get("mode") in ("poly", "mat", "rel"):
         # the recorder is deterministic in (mode, seed, draws): record again and keep the event with the same number
         full = os.path.join(wd, f"replay.full.{cfg}.ndjson")
         p = run_bin(cfg, "rec", [case["mode"], full, str(case["seed"]), str(case["draws"])], env_extra=dict(({"HX_OPS": ",".join(case["ops"])} if case.get("ops") else {}), **({"HX_TYS": ",".join(case["tys"])} if case.get("tys") else {})))
